@@ -155,8 +155,8 @@ PROPS = {
     ),
     'C17': dict(
         title='concurrent retrieval', proj='proj_full', oracle='c17',
-        quick=[S_('sched'), S_('threads_rt', nc=4)],
-        thorough=[S_('sched'), S_('threads_rt', nc=8)],
+        quick=[S_('sched'), S_('threads_rt', nc=4), S_('preempt', nc=16)],
+        thorough=[S_('sched'), S_('threads_rt', nc=8), S_('preempt', nc=16)],
         runtime_part="the interpreter's scheduler below line granularity; WeakValueDictionary's internal locking",
         level_text='The save/restore program run by N threads under an arbitrary schedule is a Lean model: restoration at quiescence is a theorem for any number of threads and any '
                    'schedule; the sequential-answer clause is refuted for the delete/restore window (finding D6, theorem sequential_answers_refuted). Real threads are single-stepped at '
@@ -165,8 +165,8 @@ PROPS = {
     ),
     'C18': dict(
         title='order / history independence, no retention', proj='proj_full', oracle='c18',
-        quick=[S_('cache', maxlen=3), S_('modorder'), S_('pokm')],
-        thorough=[S_('cache', maxlen=4), S_('modorder'), S_('pokm')],
+        quick=[S_('cache', maxlen=3), S_('modorder'), S_('pokm'), S_('lateattr', nc=1)],
+        thorough=[S_('cache', maxlen=4), S_('modorder'), S_('pokm'), S_('lateattr', nc=1)],
         runtime_part='the garbage collector and weakref callbacks (observed through weak references after gc.collect())',
         level_text='The descriptor cache is a heap-reachability model over arbitrary operation histories: no retention with the weak-value dictionary is a theorem (and retention with the '
                    'pinned weak-key one is its refutation, D7, repaired); order independence of stacked modifiers is the theorem prepare_set_ext. Real histories (all of length <= 3/4 over '
